@@ -633,7 +633,14 @@ pub fn finish(
         violations,
         wall
     );
-    if violations > 0 { 1 } else { 0 }
+    if violations > 0 {
+        1
+    } else if let Some(why) = st.extra.get("inconclusive") {
+        eprintln!("[{}] inconclusive: {why}", info.id);
+        2
+    } else {
+        0
+    }
 }
 
 /// Loads every regression case file of a property: (driver, case).
